@@ -175,6 +175,31 @@ impl Method for PhoneticMethod {
             Suggestion::empty()
         }
     }
+
+    #[cfg(riti_verif)]
+    fn verif_get_state(&self) -> String {
+        let mut v = self.suggestion.verif_get_state();
+        v["method"] = "phonetic".into();
+        v["buffer"] = self.buffer.clone().into();
+        v["prev_selection"] = self.prev_selection.into();
+        v["selections"] = serde_json::to_value(&self.selections).unwrap();
+        v.to_string()
+    }
+
+    #[cfg(riti_verif)]
+    fn verif_set_state(&mut self, state: &str) {
+        let v: serde_json::Value = serde_json::from_str(state).unwrap();
+        if let Some(s) = v["buffer"].as_str() {
+            self.buffer = s.to_string();
+        }
+        if let Some(n) = v["prev_selection"].as_u64() {
+            self.prev_selection = n as usize;
+        }
+        if v.get("selections").is_some() {
+            self.selections = serde_json::from_value(v["selections"].clone()).unwrap();
+        }
+        self.suggestion.verif_set_state(&v);
+    }
 }
 
 // Implement Default trait on PhoneticMethod for testing convenience.
